@@ -185,10 +185,10 @@ pub fn run_case_cli(text: &str, args: &[String], via_stdin: bool, to_file: bool,
     }
     if ran.code != Some(0) {
         cleanup(&in_path, &out_path);
-        let first_line = ran.stderr.lines().find(|l| !l.trim().is_empty()).unwrap_or("").to_string();
+        let first_line = ran.stderr.lines().filter(|l| !l.trim().is_empty()).take(3).collect::<Vec<_>>().join(" / ");
         return Err((
             "nonzero-exit".into(),
-            format!("exit status {:?} for a valid input; stderr: {} | args {:?}", ran.code, first_line.chars().take(300).collect::<String>(), args),
+            format!("exit status {:?} for a valid input; stderr: {} | args {:?}", ran.code, first_line.chars().take(500).collect::<String>(), args),
         ));
     }
     let raw = if let Some(p) = &out_path {
@@ -255,6 +255,11 @@ pub fn check(bytes: &[u8], _ctx: &Ctx) -> Verdict {
         Err((sig, msg)) => {
             if sig == "timeout" || sig == "harness-io" {
                 return Verdict::fail(format!("harness/{}", sig), msg);
+            }
+            // known finding F17: the JSON reader's parser refuses documents nested deeper than 128
+            // objects, i.e. valid games deeper than 32-42 plies; identified by exactly that
+            if sig == "nonzero-exit" && !case.efg && cli::json_nesting(&case.built.tree) > 127 && (msg.contains("recursion limit exceeded") || msg.contains("couldn't parse any known format")) {
+                return Verdict::fail("C15/nonzero-exit/json-nested-deeper-than-the-parser-allows", msg);
             }
             return Verdict::fail(format!("C15/{}/{}", sig, if case.efg { "gambit" } else { "json" }), msg);
         }
